@@ -243,12 +243,15 @@ def _midi_import(b):
     import partitura as pt
     for name, notes in (("plain", [(0, 480, 60), (480, 960, 62), (960, 1440, 64), (960, 1440, 65), (1440, 1920, 67), (1920, 2400, 72)]),
                         ("zero_length_ornament", [(0, 480, 60), (480, 480, 61), (480, 960, 62), (960, 1440, 64), (1440, 1920, 66)]),
-                        ("two_channels", [(0, 960, 48), (0, 480, 76), (480, 960, 77), (960, 1920, 79)])):
+                        ("two_channels", [(0, 960, 48), (0, 480, 76), (480, 960, 77), (960, 1920, 79)]),
+                        # one track, the hands on channels 0 and 1 (and a third voice on channel 5): in slot k the low note sounds together with
+                        # the note k semitones above it, for every distance up to 100
+                        ("channels_0_1_5_every_pitch_distance", [x for k in range(1, 101) for x in ((480 * k, 480 * k + 400, 24, 1), (480 * k + 10, 480 * k + 300, 24 + k, 0), (480 * k + 20, 480 * k + 200, 25 + (k * 5) % 100, 5))])):
         mf = mido.MidiFile(type=0, ticks_per_beat=480)
         tr = mido.MidiTrack()
         evs = []
-        for i, (on, off, p) in enumerate(notes):
-            ch = 1 if (name == "two_channels" and p < 60) else 0
+        notes = [(x[0], x[1], x[2]) + ((x[3],) if len(x) > 3 else ((1,) if (name == "two_channels" and x[2] < 60) else (0,))) for x in notes]
+        for i, (on, off, p, ch) in enumerate(notes):
             evs.append((on, 1, mido.Message("note_on", note=p, velocity=64, channel=ch)))
             evs.append((off, 2 if on == off else 0, mido.Message("note_off", note=p, velocity=0, channel=ch)))
         evs.sort(key=lambda x: (x[0], x[1]))
@@ -261,5 +264,6 @@ def _midi_import(b):
         ok, score = b.guard("midi_import/no_exception", case, lambda: pt.load_score_midi(mf))
         if ok:
             got = sorted((int(r["onset_div"]), int(r["pitch"])) for p in score.parts for r in p.note_array())
-            want = sorted((on, p) for (on, off, p) in notes)
-            b.case("midi_import/score_contains_exactly_the_files_pitches", got == want, case, "score (onset tick, pitch) %r, file %r" % (got, want))
+            want = sorted((on, p) for (on, off, p, _) in notes)
+            b.case("midi_import/score_contains_exactly_the_files_pitches", got == want, case, "score (onset tick, pitch): %d notes, the file holds %d; first difference %r" % (
+                len(got), len(want), next(((g, w) for g, w in zip(got + [None] * len(want), want + [None] * len(got)) if g != w), None)))
